@@ -500,3 +500,5 @@ def run(ctx, led):
     from . import kernel as _kernel
     _kernel.run_bundle(led, ctx, "G")
     run_rule(led, "G12", "the Comment state is left only on a line feed seen in the current chunk", g12, ctx)
+    from . import kernel as _kernel4
+    _kernel4.run_lifecycle(led, ctx, "G")
